@@ -20,7 +20,12 @@ PROPS = ["Bee2V/C05/Props.lean", "Bee2V/C05/PropsAdd.lean", "Bee2V/C05/PropsMul.
          "Bee2V/C05/PropsDiv.lean", "Bee2V/C05/PropsGcd.lean", "Bee2V/C05/PropsAlias.lean",
          "Bee2V/C05/PropsPp.lean", "Bee2V/C05/PropsRed.lean", "Bee2V/C05/PropsEtc.lean",
          "Bee2V/C05/PropsPpMul.lean", "Bee2V/C05/PropsPpRed.lean", "Bee2V/C05/PropsMisc.lean", "Bee2V/C05/PropsGf2.lean",
-         "Bee2V/C05/PropsPpDiv.lean", "Bee2V/C05/PropsZm.lean", "Bee2V/C05/PropsGf2Ops.lean"]
+         "Bee2V/C05/PropsPpDiv.lean", "Bee2V/C05/PropsZm.lean", "Bee2V/C05/PropsGf2Ops.lean",
+         "Bee2V/C05/PropsPpModOps.lean", "Bee2V/C05/PropsFld.lean", "Bee2V/C05/PropsGcdW.lean",
+         "Bee2V/C05/PropsMinPoly.lean"]
+# theorems that discharge a hypothesis of ANOTHER area (C06) and therefore import that area's modules: checked
+# separately, so that a build error located in the other area's files is reported as a note, not as a C05 failure
+PROPS_CROSS = ["Bee2V/C05/PropsSimC06.lean"]
 
 # ----------------------------------------------------------------------------- helpers
 
@@ -1482,6 +1487,21 @@ def edition_pairs():
 def run(ctx):
     present = [p for p in PROPS if os.path.exists(os.path.join(vcommon.LEAN, p))]
     proof_ok, log = ctx.prove([p[:-5].replace("/", ".") for p in present], present)
+    for rel in PROPS_CROSS:
+        if not os.path.exists(os.path.join(vcommon.LEAN, rel)):
+            continue
+        n_obl = len(ctx.obligations)
+        ok2, log2 = ctx.prove([rel[:-5].replace("/", ".")], [rel], drivers=[])
+        if not ok2:
+            import re
+            errs = set(re.findall(r"error: (\S+?\.lean):\d+", log2))
+            if errs and all(not e.startswith("Bee2V/C05/") for e in errs):
+                ctx.notes.append("cross-area module %s not checked in this run: build error in %s" % (rel, ", ".join(sorted(errs))[:300]))
+                del ctx.obligations[n_obl:]
+                ctx.cov.pop("lake_errors", None)
+            else:
+                proof_ok = False
+                log += "\n" + log2
     pairs, missing = edition_pairs()
     ctx.cov["safe_fast_pairs_in_headers"] = len(pairs)
     ctx.cov["safe_fast_pairs_without_model"] = missing
